@@ -1,5 +1,6 @@
 import TdVerif.Sexp
 import TdVerif.Model.C11Consolidate
+import TdVerif.Model.C11Pytree
 
 namespace TdVerif.Drive
 open TdVerif Sexp TdVerif.C11
@@ -64,6 +65,31 @@ def obsSx (o : Obs) : Sexp :=
 
 def slotSx (s : Slot) : Sexp := ofNats [s.start, s.stop, s.pad]
 
+partial def pt? : Sexp → Option PT
+  | .list [.atom "l", v] => (asNat? v).map PT.leaf
+  | .list (.atom "n" :: .list b :: n :: d :: l :: kids) => do
+    let kids ← kids.mapM fun k => match k with
+      | Sexp.list [Sexp.atom key, t] => (pt? t).map fun t' => (key, t')
+      | _ => none
+    pure (.node (← nats? b) (← optNames? n) (← optDev? d) (← bool? l) kids)
+  | _ => none
+
+def namesSx : Option (List String) → Sexp
+  | none => .atom "none"
+  | some l => .list (l.map .atom)
+def devSx : Option String → Sexp
+  | none => .atom "none"
+  | some d => .atom d
+
+partial def ptSx : PT → Sexp
+  | .leaf v => .list [.atom "l", ofNat v]
+  | .node b n d l kids => .list (.atom "n" :: ofNats b :: namesSx n :: devSx d :: .atom (if l then "true" else "false") ::
+      kids.map fun (k, t) => .list [.atom k, ptSx t])
+
+partial def specSx : Spec → Sexp
+  | .leaf => .atom "*"
+  | .node keys b n d kids => .list [.list (keys.map .atom), ofNats b, namesSx n, devSx d, .list (kids.map specSx)]
+
 end C11D
 open C11D
 
@@ -108,6 +134,14 @@ def handleC11 (cmd : String) (args : List Sexp) : Option Sexp :=
         | none => Sexp.atom "none"
         | some sn => .list [.list (sn.leaves.map fun p => .list [pathSx p.1, .atom p.2.1.dtype, ofNats p.2.1.shape, slotSx p.2.2]), ofNats sn.storage]
       pure (.list [.atom fresh, lay, obsSx (reduceFixed s), obsSx (reducePinned s), obsSx (observe s)])
+  -- (c11.pytree tree (newleaves…)) -> (leaves spec rebuilt-with-newleaves)
+  | "c11.pytree", [t, .list nl] => do
+      let t ← pt? t; let nl ← nats? nl
+      let f := flatten t
+      let r := match unflatten f.2 nl with
+        | some (t', _) => ptSx t'
+        | none => Sexp.atom "none"
+      pure (.list [ofNats f.1, specSx f.2, r])
   | _, _ => none
 
 end TdVerif.Drive
